@@ -507,14 +507,70 @@ def nofilter(F, res):
         res.add([ok("NOFILTER", key, where(f), "flat_map + map + collect only")])
 
 
+def s_pools(F, res):
+    """S-POOLS: the selector keeps two memories - what input blocks took and what backs the collateral - and keeps them apart (a
+    UTxO may back the collateral and be spent as an input of the same transaction).  The collateral memory is whatever
+    remembering field the collateral entry point grows (helpers inlined); every other remembering field belongs to the inputs.
+    Nothing that derives from a *collateral* selection may be recorded in an input memory, and nothing from an input selection
+    in the collateral memory: otherwise a block is refused (or offered) a UTxO because of what the other pool holds."""
+    fields = excl_fields(F)
+    col, inp = SELP + "select_collateral", SELP + "select_input"
+    if col not in F.fns or inp not in F.fns or len(fields) < 2:
+        res.add([assumption("S-POOLS", SEL + "|input and collateral memories are kept apart", "crates/tx3-resolver/src/inputs/select/mod.rs", "the two entry points / two remembering fields are not there under these names: not decided")])
+        return
+    AW = ("std::future::Future::poll", "std::pin::Pin::<Ptr>::new_unchecked", "std::future::IntoFuture::into_future", "<F as std::future::IntoFuture>::into_future", "std::ops::Try::branch")
+
+    def grown_in(path):
+        b = mir.inline_calls(F, F.body(path), want=_HELPERS_ALL, depth=2)
+        return {a.field for a in accesses(F, b, fields) if a.kind == "grow"}
+    k_fields = grown_in(col)
+    if not k_fields:
+        # the collateral entry point records nothing itself: then nothing tells the two pools apart here
+        res.add([assumption("S-POOLS", SEL + "|input and collateral memories are kept apart", "crates/tx3-resolver/src/inputs/select/mod.rs", "select_collateral grows no remembering field itself: which field is the collateral memory is not decided")])
+        return
+    i_fields = set(fields) - k_fields
+    bad = []
+    n = 0
+    for f0 in list(F.fns.values()):
+        if f0["crate"] != "tx3_resolver" or not f0["path"].startswith(SELP) or f0.get("owner") or is_derive(f0):
+            continue
+        b = F.body(f0["path"])
+        calls_col = any(call_matches(t, col) for _, t in mir.calls(b))
+        calls_inp = any(call_matches(t, inp) for _, t in mir.calls(b))
+        if not (calls_col or calls_inp):
+            continue
+        du = mir.DefUse(b)
+        for a in accesses(F, b, fields):
+            if a.kind != "grow" or a.data is None or a.via:
+                continue
+            n += 1
+            srcs = set()
+            for o in mir.provenance(b, du, a.data, transparent_extra=ITER_TRANSPARENT + AW):
+                if o.kind == "call" and (o.callee or "").startswith(col):
+                    srcs.add("collateral")
+                elif o.kind == "call" and (o.callee or "").startswith(inp):
+                    srcs.add("input")
+            if a.field in i_fields and "collateral" in srcs:
+                bad.append((b, a.line, "the refs of a collateral selection are recorded in `%s`, the memory input blocks are filtered against: a UTxO that only backs the collateral is withheld from the input blocks resolved after it (`%s` fails with InputNotResolved on a wallet the original resolves)" % (a.field, f0["path"].split("::")[-1])))
+            if a.field in k_fields and "input" in srcs:
+                bad.append((b, a.line, "the refs of an input selection are recorded in `%s`, the collateral memory: a UTxO spent as an input can no longer back the collateral" % a.field))
+    key = SEL + "|input and collateral memories are kept apart"
+    if bad:
+        res.add([finding("S-POOLS", key, where(bad[0][0], bad[0][1]), bad[0][2])])
+    else:
+        res.add([ok("S-POOLS", key, "crates/tx3-resolver/src/inputs/select/mod.rs", "collateral memory = %s, input memory = %s; no recording across the two in the functions that dispatch to the entry points (%d growth site(s) looked at)" % ("/".join(sorted(k_fields)), "/".join(sorted(i_fields)), n))])
+
+
 def run(ctx):
     F = ctx.F
     res = Result("C04")
+    res.rule("S-POOLS", "what input blocks took and what backs the collateral are remembered apart: no recording across the two memories")
     res.rule("S-IGNORE", "the selector only ever grows its set of taken refs, records every selection before returning it, filters candidates through it, and lives for the whole resolution")
     res.rule("S-FABRICATE", "strategies return only UTxOs they were given")
     res.rule("I-DIAG", "colliding block names are rejected (duplicate-definition diagnostic raised)")
     res.rule("NOFILTER", "compile_inputs neither filters nor de-duplicates")
     s_ignore(F, res)
+    s_pools(F, res)
     s_fabricate(F, res)
     c17.i_diag(F, res)
     nofilter(F, res)
